@@ -13,6 +13,7 @@ D2  SectorRegion.circumcircle uses (radius/2)*cos(angle/2) instead of (radius/2)
 D3  PointSetRegion.intersect(other) needs other.circumcircle, which PolygonalRegion,
     PolylineRegion, PathRegion and VoxelRegion do not have: AttributeError at sampling time.
 D4  PointSetRegion.intersect(PointSetRegion / GridRegion): unbounded recursion.
+    (already fixed in /repo while this check was being built.)
 D5  The point-set sampler tests o.containsPoint(p); for plain polygonal regions (RectangularRegion,
     PolygonalRegion) that is the footprint test, which ignores z: points above / below the
     rectangle are produced.  (IntersectionRegion.genericSampler uses _trueContainsPoint.)
@@ -22,6 +23,8 @@ D6  UnionRegion double counts: GridRegion._trueContainsPoint is "nearest grid ce
 D7  SectorRegion._makePolygons masks the disc with a kite whose tip is at 2*radius: for
     angle > 2*pi/3 the kite's edges cut into the disc, so the polygon (used by every
     intersection / union / difference and by `size`) misses part of the sector.
+    (already fixed in /repo: "fix: SectorRegion polygon is no longer clipped for angles above
+    120 degrees".)
 D8  PolylineRegion.containsPoint is an exact test (shapely.intersects_xy) that fails for the
     polyline's own samples; IntersectionRegion.genericSampler asks every operand, including the
     one that was sampled, so a generic intersection with a polyline can never be sampled.
